@@ -62,7 +62,11 @@ impl Semphore {
         self.to_wake
             .pop()
             .map(|w| {
+                #[cfg(may_verif)]
+                may_queue::verif::point(may_queue::verif::site::SEM_WAKEUP_POPPED, self as *const _ as usize);
                 w.unpark();
+                #[cfg(may_verif)]
+                may_queue::verif::point(may_queue::verif::site::SEM_WAKE_UNPARKED, self as *const _ as usize);
                 if w.take_release() {
                     self.post();
                 }
@@ -80,20 +84,30 @@ impl Semphore {
         let cur = SyncBlocker::current();
         // register blocker first
         self.to_wake.push(cur.clone());
+        #[cfg(may_verif)]
+        may_queue::verif::point(may_queue::verif::site::SEM_WAIT_PUSHED, self as *const _ as usize);
         // dec the cnt, if it's positive, unpark one waiter
         if self.cnt.fetch_sub(1, Ordering::SeqCst) > 0 {
+            #[cfg(may_verif)]
+            may_queue::verif::point(may_queue::verif::site::SEM_WAIT_SUBBED, self as *const _ as usize);
             self.wakeup_one();
         }
 
+        #[cfg(may_verif)]
+        may_queue::verif::point(may_queue::verif::site::SEM_WAIT_SUBBED, self as *const _ as usize);
         match cur.park(dur) {
             Ok(_) => true,
             Err(err) => {
+                #[cfg(may_verif)]
+                may_queue::verif::point(may_queue::verif::site::SEM_TIMEOUT_CHECK, self as *const _ as usize);
                 // check the unpark status
                 if cur.is_unparked() {
                     self.post();
                 } else {
                     // register
                     cur.set_release();
+                    #[cfg(may_verif)]
+                    may_queue::verif::point(may_queue::verif::site::SEM_TIMEOUT_SETREL, self as *const _ as usize);
                     // re-check unpark status
                     if cur.is_unparked() && cur.take_release() {
                         self.post();
@@ -145,6 +159,8 @@ impl Semphore {
     pub fn post(&self) {
         let cnt = self.cnt.fetch_add(1, Ordering::SeqCst);
         assert!(cnt < isize::MAX);
+        #[cfg(may_verif)]
+        may_queue::verif::point(may_queue::verif::site::SEM_POST_ADDED, self as *const _ as usize);
 
         // try to wakeup one waiter first
         if cnt < 0 {
